@@ -163,6 +163,8 @@ func c17Scenario(r *sim.Run) {
 		regEvents = tp.Choose("reg-events", 4)
 	}
 
+	// the operator's GeoIP databases: none / complete / unknown country / lookups fail / IPv4-only
+	o.geo = tp.Choose("geoip", 5)
 	w := newStWorld(r, s, tp, o)
 	if w == nil {
 		return
@@ -373,10 +375,15 @@ func c17Scenario(r *sim.Run) {
 				time.Sleep(time.Second)
 			}
 			if connecting.calls == 0 {
-				r.Fail("harness/c17-connecting", "the station never called Connect for the connecting-transport registration")
-				return
+				if o.geo < 3 {
+					r.Fail("harness/c17-connecting", "the station never called Connect for the connecting-transport registration")
+					return
+				}
+				// the registration was refused because the GeoIP lookup of the registrant failed
+				r.Probe("connecting_registration_refused_geoip")
+			} else {
+				r.Probe("connecting_" + map[bool]string{true: "relayed", false: "failed"}[connecting.ok])
 			}
-			r.Probe("connecting_" + map[bool]string{true: "relayed", false: "failed"}[connecting.ok])
 		}
 		conn := w.openWith(phantom, cliAddr, applyClient)
 		if send == nil {
